@@ -531,3 +531,149 @@ def mutate(rng, pol):
             if c == 15 and k in ('SCreate', 'SEmit'):
                 return set_at(pol, path, ('SDebugAssert', ('EBool', False))), 'debug-assert-in-finish'
     return pol, 'none'
+
+
+# ------------------------------------------------------------------ command policies (C30, C24)
+
+FACT_F = {'name': 'F', 'immutable': False, 'keys': [('k', T_INT)], 'vals': [('v', T_INT), ('b', T_BOOL)]}
+FACT_H = {'name': 'H', 'immutable': True, 'keys': [('k', T_INT)], 'vals': [('v', T_INT)]}
+EFFECTS = [('Eff', [('a', T_INT), ('b', T_BOOL)]), ('Note', [('t', T_STR), ('o', opt(T_INT))])]
+CMD_FIELDS = [('x', T_INT), ('y', T_BOOL), ('o', opt(T_INT)), ('e', ENUM0)]
+
+
+class CmdGen(Gen):
+    """command policies with checks, matches, calls, recall and finish blocks"""
+
+    def __init__(self, rng, depth):
+        super().__init__(rng, depth, ffi=False, todo_rate=60)
+        self.keys = [0, 1, 2, 3]
+
+    def fin_expr(self, t, env):
+        """a finish-whitelisted expression of type t"""
+        r = self.r
+        vs = self.vars_of(env, t)
+        if vs and r.chance(1, 2):
+            return ('EVar', r.choice(vs))
+        has_this = any('this' in sc for sc in env)
+        if has_this and t == T_INT and r.chance(1, 3):
+            return ('EDot', ('EVar', 'this'), 'x')
+        if has_this and t == T_BOOL and r.chance(1, 3):
+            return ('EDot', ('EVar', 'this'), 'y')
+        if t[0] == 'opt':
+            return ('ENone',) if r.chance(1, 3) else ('EWrap', 'W_Some', self.fin_expr(t[1], env))
+        if t[0] == 'struct':
+            return ('EStruct', t[1], [(f, self.fin_expr(ft, env)) for f, ft in (self.struct_fields(t[1]) or dict(EFFECTS)[t[1]])])
+        return self.lit_expr(self.lit(t))
+
+    def key_expr(self, env):
+        if self.r.chance(1, 4):
+            return self.fin_expr(T_INT, env)
+        return ('EInt', self.r.choice(self.keys))
+
+    def finish_stmts(self, env, in_fn=False):
+        r = self.r
+        out = []
+        for _ in range(r.choice([0, 1, 1, 2, 3])):
+            c = r.below(7)
+            if c == 0:
+                out.append(('SCreate', 'F', [('k', self.key_expr(env))], [('v', self.fin_expr(T_INT, env)), ('b', self.fin_expr(T_BOOL, env))]))
+            elif c == 1:
+                out.append(('SDelete', 'F', [('k', self.key_expr(env))]))
+            elif c == 2:
+                vals = [('v', self.fin_expr(T_INT, env)), ('b', self.fin_expr(T_BOOL, env))] if r.chance(1, 3) else None
+                out.append(('SUpdate', 'F', [('k', self.key_expr(env))], vals, [('v', self.fin_expr(T_INT, env)), ('b', self.fin_expr(T_BOOL, env))]))
+            elif c == 3:
+                out.append(('SEmit', ('EStruct', 'Eff', [('a', self.fin_expr(T_INT, env)), ('b', self.fin_expr(T_BOOL, env))])))
+            elif c == 4:
+                out.append(('SEmit', ('EStruct', 'Note', [('t', self.fin_expr(T_STR, env)), ('o', self.fin_expr(opt(T_INT), env))])))
+            elif c == 5:
+                out.append(('SCreate', 'H', [('k', self.key_expr(env))], [('v', self.fin_expr(T_INT, env))]))
+            elif not in_fn and self.finfuns:
+                f = r.choice(self.finfuns)
+                out.append(('SCall', f['name'], [self.fin_expr(pt, env) for _, pt in f['params']]))
+        return out
+
+    def terminal_policy(self, env, d, recalls):
+        """the else of a check in a policy block"""
+        r = self.r
+        if recalls and r.chance(3, 4):
+            rc = r.choice(recalls)
+            return ('ERecall', rc['name'], [self.expr(pt, env, min(d, 1)) for _, pt in rc['params']])
+        return ('ETodo',)
+
+    def block_stmts(self, env, d, recalls, n, in_recall):
+        """statements of a policy / recall block ending in a finish, a recall, or nothing (panic / check)"""
+        r = self.r
+        out = []
+        for _ in range(n):
+            c = r.below(10)
+            if c < 4 or d <= 0:
+                out.append(self.let(env, d))
+            elif c < 7:
+                els = ('ETodo',) if in_recall else self.terminal_policy(env, d, recalls)
+                out.append(('SCheck', self.expr(T_BOOL, env, d - 1), els))
+            elif c < 9:
+                bs = [(self.expr(T_BOOL, env, d - 1), self.block_end(env + [{}], d - 1, recalls, in_recall))]
+                fb = self.block_end(env + [{}], d - 1, recalls, in_recall) if r.chance(1, 2) else None
+                out.append(('SIf', bs, fb))
+            else:
+                st = r.choice([T_BOOL, ENUM0, opt(T_INT)])
+                scrut = self.expr(st, env, d - 1)
+                arms = [(pat, self.block_end(env + [dict(binds)], d - 1, recalls, in_recall)) for pat, binds in self.patterns(st)]
+                out.append(('SMatch', scrut, arms))
+        return out
+
+    def block_end(self, env, d, recalls, in_recall):
+        r = self.r
+        ss = self.block_stmts(env, d, recalls, r.choice([0, 1, 1]), in_recall) if d > 0 else []
+        c = r.below(6)
+        if c < 3:
+            ss.append(('SFinish', self.finish_stmts(env)))
+        elif c == 3 and recalls and not in_recall:
+            rc = r.choice(recalls)
+            ss.append(('SRecall', rc['name'], [self.expr(pt, env, 1) for _, pt in rc['params']]))
+        return ss
+
+    def command_policy(self):
+        r = self.r
+        self.globals = []
+        self.finfuns = []
+        for i in range(r.choice([0, 1, 2])):
+            params = [(self.fresh('q'), r.choice([T_INT, T_BOOL])) for _ in range(r.choice([0, 1, 2]))]
+            self.finfuns.append({'name': 'ff%d' % i, 'params': params, 'body': self.finish_stmts([{}, dict(params)], in_fn=True)})
+        for i in range(r.choice([0, 1])):
+            self.function('f%d' % i)
+        this_env = {'this': ('struct', 'C'), 'envelope': ('struct', 'Envelope')}
+        self.structs = self.structs + [('C', CMD_FIELDS)]
+        recalls = []
+        for i in range(r.choice([0, 1, 2])):
+            params = [(self.fresh('z'), r.choice([T_INT, T_BOOL, opt(T_INT)])) for _ in range(r.choice([0, 1, 2]))]
+            recalls.append({'name': 'r%d' % i, 'params': params, 'body': None})
+        for rc in recalls:
+            env = [dict(this_env), dict(rc['params'])]
+            rc['body'] = self.block_stmts(env, self.depth - 1, [], r.choice([0, 1, 2]), True) + \
+                ([('SFinish', self.finish_stmts(env))] if r.chance(3, 4) else [])
+        env = [dict(this_env)]
+        body = self.block_stmts(env, self.depth - 1, recalls, r.choice([1, 2, 3]), False)
+        c = r.below(8)
+        if c < 5:
+            body.append(('SFinish', self.finish_stmts(env)))
+        elif c < 7 and recalls:
+            rc = r.choice(recalls)
+            body.append(('SRecall', rc['name'], [self.expr(pt, env, 1) for _, pt in rc['params']]))
+        todo = [('SReturn', ('ETodo',))]
+        cmd = {'name': 'C', 'fields': CMD_FIELDS, 'seal': todo, 'open': todo, 'policy': body, 'recalls': recalls}
+        structs = [s for s in self.structs if s[0] != 'C']
+        pol = {'enums': self.enums, 'structs': structs, 'effects': EFFECTS, 'facts': [FACT_F, FACT_H], 'globals': [],
+               'funs': self.funs, 'finfuns': self.finfuns, 'cmds': [cmd], 'actions': [], 'uses_ffi': False}
+        return pol
+
+    def this_value(self):
+        return ('T', 'C', {f: self.value(t) for f, t in CMD_FIELDS})
+
+    def initial_facts(self):
+        fs = []
+        for k in self.keys:
+            if self.r.chance(1, 2):
+                fs.append(('F', [('k', ('I', k))], [('v', ('I', self.r.choice(INTS))), ('b', ('B', self.r.chance(1, 2)))]))
+        return fs
